@@ -20,6 +20,10 @@ import (
 //	F callable_nilable k<i> kind | 0/1                                          Value.IsNil is defined on that kind
 //	K1 callable <id> nfixed f.. vari nout (otype id dyn)* # nopts (kind n (ty nil id)*n)* | res ninv (nargs (static dyn id)*)* ntargets (-1 | natoms (dyn id)*)*
 //
+// Option reuse: the reuse_ / pair_ cases build the option values ONCE and apply the same values to several callables in
+// sequence; every application is recorded and decided like a fresh-option case (an option value must be a pure function
+// of the callable it is applied to; the model has no state across calls).
+//
 // res: 0 nil error, 1 error, 2 panic. A value is observed as (static type, dynamic type, tag); tag 0 = zero value / nil,
 // dynamic type -1 = nil interface. A result target with tag k initially holds the sentinel k+5000.
 
@@ -320,6 +324,18 @@ type c19Case struct {
 	outIDs []int // 0: the zero value of the result type
 	opts   []c19Opt
 	nextID int
+	note   string        // appended to the description (option reuse)
+	fn     reflect.Value // a compiled function to call instead of a made one (it takes no arguments)
+	fnInv  *int          // its invocation counter
+}
+
+// c19Built is the option values of a case, built once
+type c19Built struct {
+	options  []CallOption
+	op       []int
+	targets  []c19Val
+	lastArgs *c19Opt
+	lastRes  *c19Opt
 }
 
 func (c *c19Case) fresh() int { c.nextID++; return c.nextID }
@@ -362,6 +378,9 @@ func (s c19Sig) String() string {
 	for _, t := range s.outs {
 		out = append(out, c19Names[t])
 	}
+	if len(out) > 8 {
+		out = append(out[:3], fmt.Sprintf("...%d more", len(out)-3))
+	}
 	return "func(" + strings.Join(in, ",") + ")(" + strings.Join(out, ",") + ")"
 }
 
@@ -384,7 +403,7 @@ func (c *c19Case) describe() string {
 		}
 		parts = append(parts, []string{"CallArgs", "CallResults", "CallResultsSlice"}[o.kind]+"("+strings.Join(vs, ",")+")")
 	}
-	return strings.Join(parts, " ")
+	return strings.Join(parts, " ") + c.note
 }
 
 // atoms of the pointee of an observable target
@@ -436,8 +455,60 @@ func c19EqInts(a, b []int) bool {
 	return true
 }
 
+// build makes the option values of the case (once).
+func (c *c19Case) build() *c19Built {
+	b := &c19Built{op: []int{len(c.opts)}}
+	for i := range c.opts {
+		o := &c.opts[i]
+		b.op = append(b.op, o.kind, len(o.vals))
+		raw := make([]interface{}, len(o.vals))
+		for k, v := range o.vals {
+			nl := 0
+			if v.nl {
+				nl = 1
+			}
+			b.op = append(b.op, v.ty, nl, v.id)
+			raw[k] = v.v
+		}
+		switch o.kind {
+		case 0:
+			b.options = append(b.options, CallArgs(raw...))
+			b.lastArgs = o
+		case 1:
+			b.options = append(b.options, CallResults(raw...))
+			b.targets = append(b.targets, o.vals...)
+			b.lastRes = o
+		case 2:
+			b.options = append(b.options, CallResultsSlice(raw[0]))
+			b.targets = append(b.targets, o.vals...)
+			b.lastRes = o
+		}
+	}
+	return b
+}
+
+// resetTargets puts the sentinels back into the result targets (between two applications of the same option values).
+func (b *c19Built) resetTargets() {
+	for _, t := range b.targets {
+		if !t.ptr.IsValid() {
+			continue
+		}
+		e := c19Elem[t.ty]
+		if c19Kind[e] == 9 {
+			s := reflect.MakeSlice(t.ptr.Type().Elem(), 1, 1)
+			s.Index(0).Set(c19Make(c19Elem[e], t.id+5000))
+			t.ptr.Elem().Set(s)
+		} else {
+			t.ptr.Elem().Set(c19Make(e, t.id+5000))
+		}
+	}
+}
+
 // run executes one case against the real implementation, emits its K1 record and evaluates the monitors.
-func (c *c19Case) run(h *hctx, cid string) {
+func (c *c19Case) run(h *hctx, cid string) { c.apply(h, cid, c.build()) }
+
+// apply calls the case's function with the (possibly already used) option values b.
+func (c *c19Case) apply(h *hctx, cid string, b *c19Built) {
 	sig := c.sig
 	var ins, outs []reflect.Type
 	for _, t := range sig.fixed {
@@ -462,49 +533,24 @@ func (c *c19Case) run(h *hctx, cid string) {
 		}
 	}
 	var invocations [][]reflect.Value
-	fnV := reflect.MakeFunc(reflect.FuncOf(ins, outs, sig.vari >= 0), func(args []reflect.Value) []reflect.Value {
-		flat := append([]reflect.Value(nil), args...)
-		if sig.vari >= 0 {
-			last := flat[len(flat)-1]
-			flat = flat[:len(flat)-1]
-			for i := 0; i < last.Len(); i++ {
-				flat = append(flat, last.Index(i))
+	fnV := c.fn
+	if c.fn.IsValid() {
+		*c.fnInv = 0
+	} else {
+		fnV = reflect.MakeFunc(reflect.FuncOf(ins, outs, sig.vari >= 0), func(args []reflect.Value) []reflect.Value {
+			flat := append([]reflect.Value(nil), args...)
+			if sig.vari >= 0 {
+				last := flat[len(flat)-1]
+				flat = flat[:len(flat)-1]
+				for i := 0; i < last.Len(); i++ {
+					flat = append(flat, last.Index(i))
+				}
 			}
-		}
-		invocations = append(invocations, flat)
-		return outVals
-	})
-	var options []CallOption
-	op := []int{len(c.opts)}
-	var targets []c19Val
-	var lastArgs *c19Opt
-	var lastRes *c19Opt
-	for i := range c.opts {
-		o := &c.opts[i]
-		op = append(op, o.kind, len(o.vals))
-		raw := make([]interface{}, len(o.vals))
-		for k, v := range o.vals {
-			nl := 0
-			if v.nl {
-				nl = 1
-			}
-			op = append(op, v.ty, nl, v.id)
-			raw[k] = v.v
-		}
-		switch o.kind {
-		case 0:
-			options = append(options, CallArgs(raw...))
-			lastArgs = o
-		case 1:
-			options = append(options, CallResults(raw...))
-			targets = append(targets, o.vals...)
-			lastRes = o
-		case 2:
-			options = append(options, CallResultsSlice(raw[0]))
-			targets = append(targets, o.vals...)
-			lastRes = o
-		}
+			invocations = append(invocations, flat)
+			return outVals
+		})
 	}
+	options, op, targets, lastArgs, lastRes := b.options, b.op, b.targets, b.lastArgs, b.lastRes
 	initial := make([][]int, len(targets))
 	for i, t := range targets {
 		if t.ptr.IsValid() {
@@ -525,6 +571,11 @@ func (c *c19Case) run(h *hctx, cid string) {
 			}
 		}
 	}()
+	if c.fn.IsValid() {
+		for i := 0; i < *c.fnInv; i++ {
+			invocations = append(invocations, nil)
+		}
+	}
 	out := []int{res, len(invocations)}
 	for _, inv := range invocations {
 		out = append(out, len(inv))
@@ -925,9 +976,8 @@ func init() {
 			}
 			return l
 		}
-		for i := 0; i < h.n; i++ {
+		genCase := func(malformed bool) *c19Case {
 			c := c19NewCase()
-			malformed := r.Intn(4) == 0
 			for j, nf := 0, []int{0, 1, 1, 2, 2, 3, 4}[r.Intn(7)]; j < nf; j++ {
 				c.sig.fixed = append(c.sig.fixed, pick(paramPool))
 			}
@@ -1058,11 +1108,156 @@ func init() {
 			if r.Intn(15) == 0 { // a second results option: the last one wins, the first must stay untouched
 				c.opts = append(c.opts, genResults(false))
 			}
-			if malformed {
-				runCase(c, "bad_")
+			return c
+		}
+		for i := 0; i < h.n; i++ {
+			if malformed := r.Intn(4) == 0; malformed {
+				runCase(genCase(true), "bad_")
 			} else {
-				runCase(c, "gen_")
+				runCase(genCase(false), "gen_")
+			}
+		}
+
+		// ---- option reuse, seeded: the option values of a case are built once and applied to the case's own signature,
+		// then to a different one (another arity / parameter type / variadic-ness / results), then to the original again ----
+		mutateSig := func(s c19Sig) c19Sig {
+			m := c19Sig{fixed: append([]int(nil), s.fixed...), vari: s.vari, outs: append([]int(nil), s.outs...)}
+			switch k := r.Intn(6); {
+			case k == 0 && len(m.fixed) > 0:
+				m.fixed[r.Intn(len(m.fixed))] = pick(paramPool)
+			case k == 1 && len(m.fixed) > 0:
+				m.fixed = m.fixed[:len(m.fixed)-1]
+			case k == 2:
+				m.fixed = append(m.fixed, pick(paramPool))
+			case k == 3:
+				if m.vari >= 0 {
+					m.vari = -1
+				} else {
+					m.vari = pick(paramPool)
+				}
+			case k == 4 && len(m.outs) > 0:
+				m.outs[r.Intn(len(m.outs))] = pick(outPool)
+			case k == 5 && len(m.outs) > 0:
+				m.outs = m.outs[:len(m.outs)-1]
+			default:
+				m.fixed = append([]int{pick(paramPool)}, m.fixed...)
+			}
+			return m
+		}
+		applySeq := func(c *c19Case, sigs []c19Sig, class string) {
+			b := c.build()
+			for k, sg := range sigs {
+				if k > 0 {
+					b.resetTargets()
+				}
+				c.sig = sg
+				c.setOuts(sg.outs, func(int) bool { return r.Intn(5) == 0 })
+				c.note = fmt.Sprintf(" [the same option values, application %d of %d]", k+1, len(sigs))
+				caseNo++
+				h.count("cases_"+class, 1)
+				c.apply(h, fmt.Sprintf("%s%d", class, caseNo), b)
+			}
+		}
+		if h.pi("reuse", 1) != 0 {
+			for i := 0; i < h.n/3+1; i++ {
+				c := genCase(r.Intn(8) == 0)
+				a := c.sig
+				m := mutateSig(a)
+				if r.Intn(4) == 0 {
+					applySeq(c, []c19Sig{a, m, mutateSig(m)}, "reuse_")
+				} else {
+					applySeq(c, []c19Sig{a, m, a}, "reuse_")
+				}
+			}
+			// ---- option reuse, exhaustive: every ordered pair of the arity-1 / arity-2 signatures over the reduced pool
+			// (plus the variadic one-parameter ones); CallArgs is built once with arguments that suit the first signature
+			// (tagged values, and untyped nil wherever it is acceptable) and applied to the first, then to the second ----
+			p2 := []int{c19TInt, c19TString, c19TPInt, c19TSliceInt, c19TError, c19TIface, c19TS, c19TRecvChan}
+			var sigs []c19Sig
+			for _, pa := range p2 {
+				sigs = append(sigs, c19Sig{fixed: []int{pa}, vari: -1}, c19Sig{vari: pa})
+				for _, pb := range p2 {
+					sigs = append(sigs, c19Sig{fixed: []int{pa, pb}, vari: -1})
+				}
+			}
+			for _, s1 := range sigs {
+				ps := append([]int(nil), s1.fixed...)
+				if s1.vari >= 0 {
+					ps = append(ps, s1.vari)
+				}
+				anyNilable := false
+				for _, p := range ps {
+					anyNilable = anyNilable || c19Nilable(p)
+				}
+				for _, s2 := range sigs {
+					for variant := 0; variant < 2; variant++ {
+						if variant == 1 && !anyNilable {
+							continue
+						}
+						c := c19NewCase()
+						o := c19Opt{kind: 0}
+						for _, p := range ps {
+							if variant == 1 && c19Nilable(p) {
+								o.vals = append(o.vals, c.val(-1, false))
+							} else {
+								o.vals = append(o.vals, c.val(c19DynRep[p], false))
+							}
+						}
+						c.opts = []c19Opt{o}
+						applySeq(c, []c19Sig{s1, s2}, "pair_")
+					}
+				}
+			}
+			h.line("EXHAUSTIVE option reuse over ordered pairs of the arity<=2 signatures of the reduced pool")
+		}
+
+		// ---- a compiled function with 129 results (reflect.FuncOf cannot build a results thunk for it): no results option
+		// works, CallResults / CallResultsSlice must give an error ----
+		if h.pi("res129", 1) != 0 {
+			for kind := 0; kind <= 2; kind++ {
+				c := c19NewCase()
+				c.fn, c.fnInv = reflect.ValueOf(c19F129), &c19F129Inv
+				outs := make([]int, 129)
+				c.sig.outs = outs // all int
+				c.outIDs = make([]int, 129)
+				for j := range c.outIDs {
+					c.outIDs[j] = j + 1
+				}
+				c.nextID = 200
+				switch kind {
+				case 1:
+					o := c19Opt{kind: 1}
+					for j := 0; j < 129; j++ {
+						o.vals = append(o.vals, c.val(c19TPInt, false))
+					}
+					c.opts = []c19Opt{o}
+				case 2:
+					c.opts = []c19Opt{{kind: 2, vals: []c19Val{c.val(c19TPSliceInt, false)}}}
+				}
+				runCase(c, "res129_")
 			}
 		}
 	})
+}
+
+var c19F129Inv int
+
+// c19F129 returns its 129 results tagged 1..129
+func c19F129() (int, int, int, int, int, int, int, int, int, int, int, int, int, int, int, int,
+	int, int, int, int, int, int, int, int, int, int, int, int, int, int, int, int,
+	int, int, int, int, int, int, int, int, int, int, int, int, int, int, int, int,
+	int, int, int, int, int, int, int, int, int, int, int, int, int, int, int, int,
+	int, int, int, int, int, int, int, int, int, int, int, int, int, int, int, int,
+	int, int, int, int, int, int, int, int, int, int, int, int, int, int, int, int,
+	int, int, int, int, int, int, int, int, int, int, int, int, int, int, int, int,
+	int, int, int, int, int, int, int, int, int, int, int, int, int, int, int, int, int) {
+	c19F129Inv++
+	return 1, 2, 3, 4, 5, 6, 7, 8, 9, 10, 11, 12, 13, 14, 15, 16,
+		17, 18, 19, 20, 21, 22, 23, 24, 25, 26, 27, 28, 29, 30, 31, 32,
+		33, 34, 35, 36, 37, 38, 39, 40, 41, 42, 43, 44, 45, 46, 47, 48,
+		49, 50, 51, 52, 53, 54, 55, 56, 57, 58, 59, 60, 61, 62, 63, 64,
+		65, 66, 67, 68, 69, 70, 71, 72, 73, 74, 75, 76, 77, 78, 79, 80,
+		81, 82, 83, 84, 85, 86, 87, 88, 89, 90, 91, 92, 93, 94, 95, 96,
+		97, 98, 99, 100, 101, 102, 103, 104, 105, 106, 107, 108, 109, 110, 111, 112,
+		113, 114, 115, 116, 117, 118, 119, 120, 121, 122, 123, 124, 125, 126, 127, 128, 129
 }
